@@ -12,6 +12,7 @@ import (
 	"time"
 
 	"github.com/hashicorp/consul/agent/structs"
+	"github.com/hashicorp/consul/types"
 	"github.com/hashicorp/consul/internal/verifsim/simkit"
 )
 
@@ -160,7 +161,7 @@ func (C04) execute(p *Plan, r *simkit.Run) *simkit.Violation {
 		// node and is not critical (otherwise the entry that deleted the check / made it critical had to end the session)
 		for _, id := range simkit.SortedKeys(now.sessions) {
 			sess := now.sessions[id]
-			for _, cid := range sess.CheckIDs() {
+			for _, cid := range sessionCheckIDs(sess) {
 				_, hc, err := c.L.State().NodeCheck(sess.Node, cid, nil, "")
 				if err != nil {
 					panic(err)
@@ -300,4 +301,27 @@ func culpritOf(s Step) string {
 	}
 	sort.Strings(ops)
 	return "txn:" + fmt.Sprint(ops)
+}
+
+// sessionCheckIDs: every check a session names, in any of the three fields the API accepts
+// (the oracle does not use Session.CheckIDs, which is code under test).
+func sessionCheckIDs(sess *structs.Session) []types.CheckID {
+	seen := map[types.CheckID]bool{}
+	var out []types.CheckID
+	add := func(id types.CheckID) {
+		if !seen[id] {
+			seen[id] = true
+			out = append(out, id)
+		}
+	}
+	for _, c := range sess.Checks {
+		add(c)
+	}
+	for _, c := range sess.NodeChecks {
+		add(types.CheckID(c))
+	}
+	for _, c := range sess.ServiceChecks {
+		add(types.CheckID(c.ID))
+	}
+	return out
 }
